@@ -1,3 +1,5 @@
+\* C14 exhaustive run (strings up to length 7).  harness/checks/version.py runs a copy of this file in which HaveCodes is
+\* replaced by the versions of the library and of the models of the tree under test.
 SPECIFICATION Spec
 CONSTANTS
   Alphabet = {"0", "1", "2", ".", "-", "a"}
